@@ -265,6 +265,13 @@ def run(prog: Program) -> Results:
                     f"given the same argument inserts the very same mutable object, so an edit below one of those bindings changes "
                     f"bindings it does not address")
     identity_matching(prog, res, "R-C04-7")
+    from sa.rules.c01 import content_findings
+    from sa.contentrule import field_table
+    content_findings(prog, res, "R-C04-11", only_fields=lambda pr, c, k: field_table(pr, c).get(k) == "bool-content",
+                     describe="keyword (`rec`, …)")
+    res.rules["R-C04-11"].floor = 3
+    res.rules["R-C04-11"].description = "keywords outside the addressed binding survive an edit that empties their construct: " + \
+        res.rules["R-C04-11"].description + " (content-flow shared with R-C01-2, keyword fields only)"
     from sa.rules import poslint
     poslint.check(prog, res, "R-C04-9")
     filter_in_search(prog, res, "R-C04-10")
